@@ -485,6 +485,13 @@ def c10(shape: Shape, hist, obs, realisation: str = "") -> List[Viol]:
         if o.get("result") != rec["result"]:
             res.append(("C10|next-eval-wrong-value|%s" % tag, _detail(shape, hist, i, o, realisation=realisation)))
             break
+        # the paths an evaluation commits are its own (nothing left over from an earlier, failed, one)
+        own = set(p for (p, _) in rec["req"])
+        synced = set(p for op in (o.get("ops") or []) if op[0] == "sync" for (p, _) in op[1])
+        if synced - own:
+            res.append(("C10|next-eval-commits-foreign-paths|%s" % tag,
+                        _detail(shape, hist, i, o, realisation=realisation, foreign=sorted(synced - own))))
+            break
         exp = Counter(rec["log"])
         got = Counter(o.get("log") or [])
         if got != exp and after_fail:
